@@ -168,11 +168,6 @@ func (k *Keyed[K, V]) SetKey(key K, start bool) (V, bool) {
 			_ = v.deferRemove.Stop()
 			v.deferRemove = nil
 		}
-		if v.deferRetry != nil {
-			// cancel retrying this key
-			_ = v.deferRetry.Stop()
-			v.deferRetry = nil
-		}
 	}
 	if !existed || start {
 		if k.ctx != nil {
